@@ -139,10 +139,10 @@ func genSnapCfg(g *simrt.Chooser, stratum string) (SnapCfg, rdbgen.GenOpts) {
 	if !on("hz-stream-mixed-fields") {
 		o.Off |= rdbgen.HzStreamMixedFields
 	}
-	if os.Getenv("SIM_C03_STREAM_SHORT") != "1" {
-		// a stream entry with fewer fields than its node's master entry makes the repository's stream
-		// expansion lose its position inside the listpack and (often) spin forever: that would kill the
-		// worker process (watchdog, exit 2) instead of producing a verdict. Enable by hand to demonstrate.
+	if os.Getenv("SIM_C03_STREAM_SHORT") == "0" || !on("hz-stream-short-fields") {
+		// stream entries with fewer fields than their node's master entry. Before the fix "a stream entry with its
+		// own fields must not overwrite the master entry's field count" this input made the repository's stream
+		// expansion spin forever (worker killed by the watchdog, exit 2): SIM_C03_STREAM_SHORT=0 switches it off.
 		o.Off |= rdbgen.HzStreamShortMixed
 	}
 	c.OlderTarget = on("hz-older-target")
